@@ -225,10 +225,69 @@ fn one_case(args: &Args, ci: u64, rng: &mut Rng, rep: &mut Report) {
 	}
 }
 
+/// Collection-length boundaries of the persisted encoding: scorers tracking 65534, 65535 and 65536 channels
+/// (the length prefix changes form at 0xffff) are written and read back; a sample of channels is compared.
+fn boundary_case(args: &Args, rep: &mut Report) {
+	let secp = Secp256k1::new();
+	let pks: Vec<PublicKey> = (0..2).map(|i| PublicKey::from_secret_key(&secp, &sk(args.seed, 900 + i as u64))).collect();
+	let graph = NetworkGraph::new(Network::Regtest, NullLogger);
+	let (lo, hi) = if NodeId::from_pubkey(&pks[0]) < NodeId::from_pubkey(&pks[1]) { (0, 1) } else { (1, 0) };
+	let now_ts = std::time::SystemTime::now().duration_since(std::time::UNIX_EPOCH).unwrap().as_secs() as u32;
+	let total = 65_540u64;
+	let mut chans = vec![];
+	for c in 0..total {
+		let scid = 10_000 + c;
+		let ann = UnsignedChannelAnnouncement { features: ChannelFeatures::empty(), chain_hash: ChainHash::using_genesis_block(Network::Regtest), short_channel_id: scid, node_id_1: NodeId::from_pubkey(&pks[lo]), node_id_2: NodeId::from_pubkey(&pks[hi]), bitcoin_key_1: NodeId::from_pubkey(&pks[lo]), bitcoin_key_2: NodeId::from_pubkey(&pks[hi]), excess_data: vec![] };
+		if graph.update_channel_from_unsigned_announcement::<&NoUtxo>(&ann, &None).is_err() {
+			continue;
+		}
+		for dir in 0..2u8 {
+			let upd = UnsignedChannelUpdate { chain_hash: ChainHash::using_genesis_block(Network::Regtest), short_channel_id: scid, timestamp: now_ts - 100, message_flags: 1, channel_flags: dir, cltv_expiry_delta: 40, htlc_minimum_msat: 1, htlc_maximum_msat: 1_000_000_000, fee_base_msat: 0, fee_proportional_millionths: 0, excess_data: vec![] };
+			let _ = graph.update_channel_unsigned(&upd);
+		}
+		chans.push((scid, lo, hi, 1_000_000_000u64));
+	}
+	let net = Net { graph, pks, chans };
+	let decay = ProbabilisticScoringDecayParameters::default();
+	let mut orig: Scorer = ProbabilisticScorer::new(decay, &net.graph, NullLogger);
+	let now = 1_700_000_000u64;
+	let mut tracked = 0usize;
+	for target in [65_534usize, 65_535, 65_536] {
+		while tracked < target && tracked < net.chans.len() {
+			let (scid, _, b, _) = net.chans[tracked];
+			let path = Path { hops: vec![RouteHop { pubkey: net.pks[b], node_features: NodeFeatures::empty(), short_channel_id: scid, channel_features: ChannelFeatures::empty(), fee_msat: 1_000 + tracked as u64, cltv_expiry_delta: 40, maybe_announced_channel: true }], blinded_tail: None };
+			orig.payment_path_failed(&path, scid, Duration::from_secs(now));
+			tracked += 1;
+		}
+		let bytes = orig.encode();
+		rep.count("scorer_collection_length_boundary_roundtrips");
+		let sample = Net { graph: NetworkGraph::new(Network::Regtest, NullLogger), pks: net.pks.clone(), chans: vec![net.chans[0], net.chans[tracked / 2], net.chans[tracked - 1]] };
+		let fail = |why: String, rep: &mut Report| {
+			let body = Json::obj().set("property", "C12").set("rule", "Z5-scorer").set("seed", args.seed).set("case", "collection-length boundary").set("channels_tracked", tracked as u64).set("why", why.clone());
+			let path = args.write_replay(&format!("Z5-scorer-boundary-{}", tracked), &body);
+			rep.violation("C12", "Z5-scorer", &format!("a scorer tracking a boundary number of channels does not read back unchanged: {}", vcore::canon(&why)), format!("{} channels tracked: {}", tracked, why), Some(path));
+		};
+		match vcore::guarded(|| <Scorer as ReadableArgs<_>>::read(&mut &bytes[..], (decay, &net.graph, NullLogger))) {
+			Ok(Ok(copy)) => {
+				let (a, b) = (snapshot(&orig, &sample), snapshot(&copy, &sample));
+				rep.count("scorer_estimate_comparisons");
+				if a != b {
+					fail(format!("estimates differ: {:?} vs {:?}", a.first(), b.first()), rep);
+				}
+			},
+			Ok(Err(e)) => fail(format!("{:?}", e), rep),
+			Err(p) => fail(format!("panic: {}", p), rep),
+		}
+	}
+}
+
 fn main() {
 	vcore::install_quiet_panic_hook();
 	let args = Args::parse();
 	let mut rep = args.report();
+	if args.shard == 0 && args.kv.get("only").is_none() {
+		boundary_case(&args, &mut rep);
+	}
 	let cases = args.num("cases", 4_800, 240_000);
 	bins::shard_runs(&args, cases, &mut rep, |ci, rng, rep| one_case(&args, ci, rng, rep));
 	rep.write_to(&args.out);
